@@ -97,7 +97,9 @@ def streams(tier, rng, P, only=None, cases=None):
         st, f = impl
         if st != "ok": return ("violation", "convert did not return: " + st)
         out = unhx(f["out"]).decode("utf-8", "replace")
-        if out != c["src"].strip(): return ("violation", "plain ASCII MML was rewritten: %r -> %r" % (c["src"][:100], out[:100]))
+        want = c["src"].rstrip()
+        while want and want[0].isspace() and want[0] not in "\n\r": want = want[1:]
+        if out != want: return ("violation", "plain ASCII MML was rewritten: %r -> %r" % (c["src"][:100], out[:100]))
         if m[0] != "ok out=" + f["out"]: return ("mismatch", "model convert differs from the implementation")
         return None
     s2 = Stream("ascii", cases if (cases and only == "ascii") else mk_ascii(), ascii_model, ascii_judge, lambda c, i, m: i[1].get("out"), "ASCII MML through convert")
